@@ -1072,8 +1072,8 @@ impl Walrus {
                     initial_trim = 0; // Only for first entry
                 }
 
-                // Add to results
-                if !final_data.is_empty() {
+                // Add to results (zero-length payloads are entries too, as in read_next)
+                {
                     // Extract topic_id and chunk_idx from the payload prefix for logging
                     if final_data.len() >= 9 {
                         let t_idx = final_data[0];
